@@ -84,6 +84,10 @@ type Exec struct {
 	interfereFn   *ssa.Function
 	inInterfere   bool
 	opaqueCnt     int
+	lastNow       *Term
+	callStack     []string
+	abortStack    string
+	facts         map[factKey]bool
 
 	// accumulated over paths
 	work      [][]int
@@ -117,6 +121,9 @@ func (ex *Exec) resetPath(prefix []int) {
 	ex.onceDone = nil
 	ex.inInterfere = false
 	ex.opaqueCnt = 0
+	ex.lastNow = nil
+	ex.callStack = nil
+	ex.abortStack = ""
 }
 
 // ---------- path forking by re-execution ----------
@@ -366,11 +373,31 @@ func (ex *Exec) callFn(fn *ssa.Function, args []Value, env []Value) (result Valu
 		ex.funcsSeen[key] = true
 	}
 	ex.depth++
+	ex.callStack = append(ex.callStack, key)
 	if ex.depth > ex.cfg.MaxDepth {
 		ex.depth--
 		ex.incon("call depth bound %d exceeded at %s", ex.cfg.MaxDepth, key)
 	}
-	defer func() { ex.depth-- }()
+	defer func() {
+		ex.depth--
+		if r := recover(); r != nil {
+			// keep the stack for diagnostics of aborting outcomes
+			switch r.(type) {
+			case inconclusive, fatalErr, unknownUse:
+				if ex.abortStack == "" {
+					n := len(ex.callStack)
+					lo := n - 8
+					if lo < 0 {
+						lo = 0
+					}
+					ex.abortStack = strings.Join(ex.callStack[lo:n], " > ")
+				}
+			}
+			ex.callStack = ex.callStack[:len(ex.callStack)-1]
+			panic(r)
+		}
+		ex.callStack = ex.callStack[:len(ex.callStack)-1]
+	}()
 	fr := &Frame{fn: fn, env: map[ssa.Value]Value{}, backEdges: map[*ssa.BasicBlock]int{}}
 	for i, p := range fn.Params {
 		if i < len(args) {
@@ -545,8 +572,6 @@ func (ex *Exec) load(p Value, what string) Value {
 			return p
 		}
 		ex.incon("load through unknown pointer: %s", p.why)
-	case *BigVal:
-		ex.incon("direct access to big.Int contents (%s)", what)
 	case nil:
 		panic(goPanic{msg: "nil pointer dereference (" + what + ")"})
 	}
@@ -766,13 +791,14 @@ func (ex *Exec) visit(fr *Frame, instr ssa.Instruction) (k int) {
 				if u, isu := (*p).(Unknown); isu {
 					panic(unknownUse{u})
 				}
+				if _, isb := (*p).(BigVal); isb {
+					ex.incon("direct field access into big.Int (unmodelled big.Int operation) in %s", fr.fn)
+				}
 				panic(fatalErr{fmt.Sprintf("FieldAddr on %T in %s", *p, fr.fn)})
 			}
 			fr.env[in] = &s[in.Field]
 		case Unknown:
 			panic(unknownUse{p})
-		case *BigVal:
-			ex.incon("field access into big.Int in %s", fr.fn)
 		default:
 			panic(fatalErr{fmt.Sprintf("FieldAddr on pointer %T in %s", p, fr.fn)})
 		}
@@ -860,6 +886,12 @@ func (ex *Exec) lenientCall(fnv Value, args []Value, cc *ssa.CallCommon) (res Va
 			case unwindHit:
 				ex.depth = savedDepth
 				res = Unknown{"loop bound in init: " + r.where}
+			case fatalErr:
+				ex.depth = savedDepth
+				res = Unknown{"unsupported code in init: " + r.msg}
+			case unknownUse:
+				ex.depth = savedDepth
+				res = r.u
 			default:
 				panic(r)
 			}
